@@ -17,8 +17,10 @@ def relerr(got, ref):
 def check(ck):
     zoo = wfzoo.obc_wfs(ck.rng, which="all") + wfzoo.pbc_wfs(ck.rng, which="all")
     worst = {}
+    import os
+    only = os.environ.get("VERIF_ONLY_WF")
     for name, mol, wf in zoo:
-        if wf is None:
+        if wf is None or (only and name != only):
             continue
         nconf = 5
         cfg = wfzoo.walkers(mol, nconf, ck.rng, spread=1.2)
@@ -74,6 +76,32 @@ def check(ck):
                             werr = max(werr, err)
                             if not np.isfinite(err) or err > 1e-7:
                                 ck.violation("ratio_not_psi_ratio", SITE, dict(inp, call="testvalue(mask)", mask=mask.tolist()), expected=ref[mask].tolist().__repr__()[:300], got=r3.tolist().__repr__()[:300])
+            # trial positions exactly ON a nucleus and exactly ON another (opposite-spin) electron: the cusp functions are finite there
+            # (their gradients need not be), and the ratios must still be Psi(R')/Psi(R)
+            nup = mol.nelec[0]
+            others = [j for j in range(nelec) if (j >= nup) != (e >= nup)]
+            specials = [("on nucleus", np.repeat(mol.atom_coords()[int(ck.rng.integers(0, len(mol.atom_coords())))][None], nconf, axis=0))]
+            if others:
+                specials.append(("on an opposite-spin electron", cfg.configs[:, others[int(ck.rng.integers(0, len(others)))]].copy()))
+            for label, pos in specials:
+                epos = wc.raw_electron(cfg, e, pos)
+                with np.errstate(all="ignore"):
+                    ref = wc.psi_ratio(ref_wf, wc.with_electron_at(cfg, e, epos), cfg)
+                ok_ref = np.isfinite(ref) & (np.abs(ref) > 1e-10) & (np.abs(ref) < 1e10)
+                if not ok_ref.any():
+                    ck.count("coincidence cases skipped (reference ratio out of range)")
+                    continue
+                inp = {"wf": name, "electron": e, "trial_position": label, "periodic": periodic}
+                for call, fn in (("testvalue", lambda: np.asarray(wf.testvalue(e, epos)[0])), ("gradient_value", lambda: np.asarray(wf.gradient_value(e, epos)[1]))):
+                    with np.errstate(all="ignore"):
+                        ok, r = ck.guarded(fn, "ratio", SITE, dict(inp, call=call))
+                    ck.case(("coincide", name, e, label, call))
+                    if ok:
+                        err = float(np.max(relerr(r[ok_ref], ref[ok_ref])))
+                        werr = max(werr, err) if np.isfinite(err) else werr
+                        if not np.isfinite(err) or err > 1e-7:
+                            ck.violation("ratio_not_psi_ratio", SITE, dict(inp, call=call), expected=ref.tolist().__repr__()[:300], got=np.asarray(r).tolist().__repr__()[:300],
+                                         oracle="Psi(R')/Psi(R) from two full recomputations; trial position coincides with a nucleus / another electron")
             # several auxiliary points per walker (as the pseudopotential uses), with and without mask
             for naux in ([1, 6, 12] if ck.thorough else [6]):
                 aux = cfg.configs[:, e][:, None, :] + ck.rng.normal(size=(nconf, naux, 3)) * ck.rng.choice([0.3, 2.0])
@@ -158,4 +186,4 @@ def main(argv):
     ck.coq_build("C03", THEOREMS, props_files=["C03/Props.v", "C03/Props2.v"])
     if not ck.replay:
         check(ck)
-    return ck.finish()
+    return ck.finish({"JAX class, trial position on a nucleus, NaN": lambda v: str(v.get("input", {}).get("wf", "")).startswith("jax") and v.get("input", {}).get("trial_position") == "on nucleus" and "nan" in str(v.get("got"))})
